@@ -34,7 +34,7 @@ func init() {
 		Race:      true,
 		RaceFiles: []string{"sfilesys.go"},
 		Shards:    shards(8, 16),
-		Timeout:   timeouts(3*time.Minute, 40*time.Minute),
+		Timeout:   timeouts(12*time.Minute, 90*time.Minute),
 		MinEvals:  100,
 		Required:  []string{"histories_gated", "histories_free", "porcupine:ok", "overlapping_pairs_on_shared_fid", "locked_fid_scans", "mutex_waits_observed"},
 		Run:       runC14,
